@@ -7,7 +7,8 @@ CONSTANTS Majors, Minors, Patches
 
 VARIABLE s
 
-Init == s \in [t : Majors \X Minors \X Patches, variant : {"os", "desktop"}, legacy : BOOLEAN, db2 : BOOLEAN]
+\* (present-but-empty files are added to the emitted cases by the check script for a selection of versions)
+Init == s \in [t : Majors \X Minors \X Patches, variant : {"os", "desktop"}, legacy : BOOLEAN, db2 : BOOLEAN, legacyE : {FALSE}, db2E : {FALSE}]
 Next == UNCHANGED s
 Spec == Init /\ [][Next]_s
 
